@@ -430,9 +430,16 @@ def run_impl(case):
                 open(fx, "w").write(txt)
                 rr, _e = _try(lambda: TetMesh.read_vtk(fx))
                 recs.append([kind, txt, None if rr is None else [np.asarray(rr.v, dtype=float).tolist(), np.asarray(rr.t).tolist()]])
-            out["files"] = recs
             f2 = os.path.join(d, "m.msh")
             txt = print_gmsh(case["v"], case["t"], case["ntags"])
+            gl = txt.splitlines(keepends=True)
+            for cut in (None, 2, 5 + len(case["v"]) // 2, 5 + len(case["v"]), 7 + len(case["v"]), len(gl) - 2, len(gl) - 1):
+                gt = txt if cut is None else "".join(gl[:cut])
+                fx = os.path.join(d, "rec.msh")
+                open(fx, "w").write(gt)
+                rr, _e = _try(lambda: TetMesh.read_gmsh(fx))
+                recs.append(["gmsh", gt, None if rr is None else [np.asarray(rr.v, dtype=float).tolist(), np.asarray(rr.t).tolist()]])
+            out["files"] = recs
             open(f2, "w").write(txt)
             r, err = _try(lambda: TetMesh.read_gmsh(f2))
             out["gmsh"] = err or _same_mesh(r, np.array(case["v"], dtype=np.float32), np.array(case["t"]))
@@ -528,14 +535,14 @@ def tokens(text, round32):
 def _meshres(kind, r):
     if r is None:
         return "NoMesh"
-    ctor = "TetRes" if kind == "vtk_tet" else "TriaRes"
+    ctor = "TetRes" if kind in ("vtk_tet", "gmsh") else "TriaRes"
     return f"({ctor} {core.cv3list(r[0])} {core.ctuples(r[1])})"
 
 
 def coq_case(case, out):
     if case["ctype"] not in ("tria", "tet") or "files" not in out:
         return None
-    kmap = {"vtk_tria": "RVtkTria", "vtk_tet": "RVtkTet", "off": "ROff"}
+    kmap = {"vtk_tria": "RVtkTria", "vtk_tet": "RVtkTet", "off": "ROff", "gmsh": "RGmsh"}
     v = np.array(case["v"], dtype=case["vdtype"]).astype(float).tolist()
     written = ("(TetRes %s %s)" if case["ctype"] == "tet" else "(TriaRes %s %s)") % (core.cv3list(v), core.ctuples(case["t"]))
     reads = "[" + "; ".join("(%s, %s, %s)" % (kmap[k], tokens(txt, True), _meshres(k, r)) for k, txt, r in out["files"]) + "]"
